@@ -76,7 +76,8 @@ class FlaskEnableCSRFProtection(
                     flows_into_csrf_protect = map(
                         self._flows_into_csrf_protect, named_targets
                     )
-                    if named_targets and not all(flows_into_csrf_protect):
+                    # The targets of one assignment name the same app: one of them being protected is enough
+                    if named_targets and not any(flows_into_csrf_protect):
                         new_stmt = cst.parse_statement(
                             f"csrf_{named_targets[0].value} = CSRFProtect({named_targets[0].value})"
                         )
